@@ -298,6 +298,39 @@ class M(Model):
             act[k] = _CODE[(nxt[0] - cells[k][0], nxt[1] - cells[k][1])]
         return act
 
+    def crowd_step(self, s, episode_seed, r=0):
+        """Driver hook for the 'crowd' plan mode: one hub cell per episode (derived from the reset key)."""
+        hub = ((int(episode_seed[0]) + 3) % self.G, (int(episode_seed[1]) + 5) % self.G)
+        if r % 3 == 1:
+            # jostling: every agent steps towards the nearest other agent, legal or not - clusters of three produce the
+            # chains "A into B's cell while B's own move is contested / blocked"
+            apos = self._tab(s)[0]
+            act = np.zeros(self.A, np.int64)
+            for k in range(self.A):
+                others = [j for j in range(self.A) if j != k]
+                if not others:
+                    continue
+                j = min(others, key=lambda j: (abs(int(apos[j][0] - apos[k][0])) + abs(int(apos[j][1] - apos[k][1])), (j + r) % self.A))
+                dr, dc = int(apos[j][0] - apos[k][0]), int(apos[j][1] - apos[k][1])
+                if abs(dr) >= abs(dc) and dr != 0:
+                    act[k] = _CODE[(1 if dr > 0 else -1, 0)]
+                elif dc != 0:
+                    act[k] = _CODE[(0, 1 if dc > 0 else -1)]
+            return act
+        act = np.asarray(self.crowd_action(s, hub), np.int64).copy()
+        if r % 2 == 0:
+            # tailgating: one agent that stands next to another agent steps into that agent's cell (a masked-out
+            # move) while the others keep crowding - the chain "A into B's cell while B's own move is contested"
+            apos = self._tab(s)[0]
+            order = [(k + r // 2) % self.A for k in range(self.A)]
+            for k in order:
+                for j in range(self.A):
+                    d = (int(apos[j][0] - apos[k][0]), int(apos[j][1] - apos[k][1]))
+                    if j != k and d in _CODE:
+                        act[k] = _CODE[d]
+                        return act
+        return act
+
     def crowd_action(self, s, hub):
         """Adversarial policy: agents gather around a free cell `hub` and enter it in the same step (collision
         of up to four agents, all of which must keep their positions)."""
